@@ -279,6 +279,14 @@ class QGen:
                 q += "/" + self.query(0, first=False, max_len=2)
             self.feat("length.%d" % (q.count("/") + 1))
             return q
+        if r.random() < 0.04:
+            # a label given inside the pipeline, then a trailing file name of another kind: the trailing one decides
+            q = "%s/filename-%s/%s/%s" % (self.query(0, max_len=2), r.choice(["w.txt", "v.json", "q.html", "u.b"]),
+                                          r.choice(["ident", "cat-x", "ident/cat-y"]), r.choice(["y.json", "z.txt", "p.csv", "m.pickle", "n.b"]))
+            self.feat("filename")
+            self.feat("filename.relabelled")
+            self.feat("length.%d" % (q.count("/") + 1))
+            return q
         q = self.query(0)
         if r.random() < 0.2:
             fn = r.choice(["out.txt", "data.json", "x.pickle", "r.tar.gz", "a.HTML", "noext.", "f.b", "t.csv"])
